@@ -46,24 +46,26 @@
   * `C09_decoded_of_good` — the bridge for any response: it suffices that the writer handed to `finish`
     is `Good` (writer invariant + content layout) with only address records of its own in the
     additional section, and has its EDNS slot set iff the scan reached an OPT.
-  Not proved (hence `_partial`), precisely:
-  (1) for responses of the *answering phase* (verdict `answer`, signed or not): that the final writer
-      is `Good` with the records of the successful logged calls as its body.  The two halves exist —
-      C05 (`C09_answer_phase_additional_is_address_only`): every `add_additional_*` call of the
-      answering phase has type A / AAAA, on the call log; C12 (`clay_addRrOp`, `clay_addRrsetOp`): a
-      successful call appends exactly its records to the layout — but the induction over
-      `handle_non_axfr_query` that ties the ghost log to the layout (with the writer invariant and the
-      hint contract at every call, i.e. along `Proofs/ServerQuery`) is not done.  The octet-level
-      statements above (`C09_answer_opt`, `C09_signed_answer_opt`: `finish` appends exactly one OPT iff
-      the slot is set, and the answering phase keeps the slot) are proved;
-  (2) the reply to a signed request whose TSIG record does not fit (TC / NOERROR without TSIG, C10 (e))
-      is not lifted to the decoding.
-  The differential check (audit tags `C09:*`) covers both.
+  * `C09_decoded_answer`, `C09_decoded_signed_answer` — the OPT clauses for every response of the
+    *answering phase* (verdict `answer`, unsigned or authenticated): the final writer is `Good` with
+    the question and the records of the successful logged calls as its body
+    (`ServerContent.answer_final_good`, `signed_answer_final`, on top of
+    `ServerContent.clay_handleNonAxfrQueryL`: the induction over `handle_non_axfr_query` that ties the
+    ghost log to the writer's content layout, with the writer invariant and the hint contract at
+    every call, run along `Proofs/ServerQuery`), its own additional records are address records
+    (C05's `LogsT.inner`), and the answering phase keeps the EDNS payload size.
+  Not proved (hence `C09_full` is not stated as a theorem), precisely:
+  (1) the reply to a signed request whose TSIG record does not fit (TC / NOERROR without TSIG, C10 (e))
+      is not lifted to the decoding;
+  (2) the decoded theorems take the API's guarantees as hypotheses (`CfgWF cfg`: zones filed under
+      their apex, non-empty RRsets; server payload size a 16-bit value), which `C09_full` omits.
+  The differential check (audit tags `C09:*`) covers these.
 -/
 import QV.Proofs.ServerProps
 import QV.Proofs.ServerEcho
 import QV.Proofs.ServerSigned
 import QV.Proofs.ServerSignedDecode
+import QV.Proofs.ServerAnswerDecode
 
 namespace QV.C09
 open QV QV.Spec.Server QV.ServerScan
@@ -383,6 +385,96 @@ theorem C09_decoded_signed_error (cfg : Server.Cfg) (tr : Server.Transport) (now
   rw [hq1] at c3
   rw [hq2] at c4
   exact ⟨c1, List.length_eq_zero_iff.mp c3, List.length_eq_zero_iff.mp c4⟩
+
+/-- the bridge again, for writers whose EDNS slot is known up to the extended-RCODE octet (the
+    answering phase resets it with every `set_rcode`): the OPT clauses of `C09_full` need the
+    payload size only — the version octet of the OPT's TTL is 0 whatever that octet is -/
+theorem C09_optClauses_of_good (payload : Nat) (hp16 : payload ≤ 65535) (edns : Bool)
+    (F : Writer.State) (bd : Writer.Body) (hG : Good F bd) (hty : ∀ r ∈ bd.ar, r.ty = 1 ∨ r.ty = 28)
+    (he : F.edns.map (·.payload) = (if edns then some payload else none)) (b : Bytes) (mac : Option (List UInt8))
+    (hf : Writer.finish F Server.macFn = .ok (b, mac)) (d : Spec.DMsg) (hd : Spec.specDecodeMsg b = some d) :
+    OptClauses payload edns d ∧ d.an.length = bd.an.length ∧ d.ns.length = bd.ns.length := by
+  obtain ⟨c1, c2, c3, c4⟩ := opt_of_good Server.macFn F bd hG hty b mac hf d hd
+  have hs : F.edns.isSome = edns := by
+    cases edns <;> cases hw : F.edns <;> rw [hw] at he <;> simp at he ⊢
+  refine ⟨⟨by rw [c1, hs], fun o ho hot => ?_⟩, c3, c4⟩
+  obtain ⟨ed, hed, q1, q2, q3⟩ := c2 o ho hot
+  rw [hed] at he
+  cases edns with
+  | false => simp at he
+  | true =>
+    simp only [if_true, Option.map_some, Option.some.injEq] at he
+    refine ⟨q1, by rw [q2, he]; exact Nat.mod_eq_of_lt (by omega), ?_⟩
+    rw [q3]; omega
+
+/-- **`C09_full`'s OPT clauses for every response that a loaded zone produces** (verdict `answer`:
+    answers, CNAME chains, referrals, negative answers, SERVFAIL and truncation epilogues), on every
+    independent decoding of the response.  The final writer is `Good` with the question and the
+    records of the successful calls of the answering phase as its body
+    (`ServerContent.answer_final_good`: the induction over `handle_non_axfr_query` that ties the ghost
+    log to the writer's content layout), its own additional records are address records, and the
+    answering phase keeps the EDNS payload (`hwc_answer_slot`). -/
+theorem C09_decoded_answer (cfg : Server.Cfg) (hcfg : ServerSafety.CfgWF cfg) (tr : Server.Transport)
+    (now bufLen : Nat) (req : Bytes)
+    (hbuf : minBuf tr cfg.payload ≤ bufLen) (hpay : 512 ≤ cfg.payload) (hp16 : cfg.payload ≤ 65535)
+    (hreq : req.size ≤ Rdata.USIZE_MAX)
+    (hv : (specScanWith (catKind cfg) cfg.payload req).verdict = .answer) :
+    ∀ b, Server.handleMessage cfg tr now bufLen req = .ok (some b) →
+      ∀ d, Spec.specDecodeMsg b = some d →
+        OptClauses cfg.payload (specScanWith (catKind cfg) cfg.payload req).edns d := by
+  intro b h d hd
+  have h12 : 12 ≤ req.size := by
+    by_cases hc : req.size < 12
+    · rw [handleMessage_short cfg tr now bufLen req hbuf hc] at h; cases h
+    · omega
+  have hqr : (req.getD 2 0).toNat < 128 := by
+    by_cases hc : (req.getD 2 0).toNat ≥ 128
+    · rw [handleMessage_qr cfg tr now bufLen req hbuf h12 hc] at h; cases h
+    · omega
+  rw [specScanWith_eq] at hv ⊢
+  simp only [show ¬ req.size < 12 by omega, show ¬ (req.getD 2 0).toNat ≥ 128 by omega, if_false] at hv ⊢
+  obtain ⟨_, he⟩ := hwc_answer_slot cfg tr now bufLen req hbuf hpay h12 hreq (Spec.Server.hdr req 0)
+    (((req.getD 2 0).toNat &&& 120) >>> 3) (((req.getD 2 0).toNat &&& 1) != 0) hv
+  obtain ⟨bd, hG, _, hty⟩ := ServerContent.answer_final_good cfg hcfg tr now bufLen req hbuf hpay hp16 h12 hreq
+    (Spec.Server.hdr req 0) (((req.getD 2 0).toNat &&& 120) >>> 3) (((req.getD 2 0).toNat &&& 1) != 0) hv
+  rw [handleMessage_eq cfg tr now bufLen req hbuf hpay h12 hqr] at h
+  rcases hh : Server.handleWithContext cfg tr now ⟨req, 12, none⟩
+      (hdrSt (w0 bufLen (lim0 tr)) (Spec.Server.hdr req 0) (((req.getD 2 0).toNat &&& 120) >>> 3)
+        (((req.getD 2 0).toNat &&& 1) != 0)) with ⟨(bb | e | _), w1⟩
+  · rw [hh] at h he hG
+    simp only at he hG
+    cases bb with
+    | false => simp only at h; cases h
+    | true =>
+      simp only at h
+      rcases hf : Writer.finish w1 Server.macFn with ⟨bytes, mac⟩ | e | _
+      · rw [hf] at h
+        simp only [Out.ok.injEq, Option.some.injEq] at h
+        subst h
+        exact (C09_optClauses_of_good cfg.payload hp16 _ w1 bd hG hty he bytes mac hf d hd).1
+      · rw [hf] at h; cases h
+      · rw [hf] at h; cases h
+  · rw [hh] at h; cases h
+  · rw [hh] at h; cases h
+
+/-- **`C09_full`'s OPT clauses for authenticated signed requests that a loaded zone answers** -/
+theorem C09_decoded_signed_answer (cfg : Server.Cfg) (hcfg : ServerSafety.CfgWF cfg) (tr : Server.Transport)
+    (now bufLen : Nat) (req : Bytes)
+    (hbuf : minBuf tr cfg.payload ≤ bufLen) (hpay : 512 ≤ cfg.payload) (hp16 : cfg.payload ≤ 65535)
+    (hreq : req.size ≤ Rdata.USIZE_MAX)
+    (hr : (specScanWith (catKind cfg) cfg.payload req).respond = true)
+    (hv : (specScanWith (catKind cfg) cfg.payload req).verdict = .tsigReached) :
+    ∃ (t : Tsig.ReadTsigRr) (mw : Bytes) (r' : Reader.Reader), r'.octets = req ∧ r'.cursor ≤ req.size ∧
+      ∀ r'' S, Server.tsigAfter cfg now t mw r' (preTsigState cfg tr bufLen req) = (.ok (some r''), S) →
+        endVerdict (catKind cfg) req.size (specScanWith (catKind cfg) cfg.payload req).question
+          r'.cursor ((req.getD 2 0).toNat / 8 % 16) = .answer →
+      ∀ b, Server.handleMessage cfg tr now bufLen req = .ok (some b) →
+        ∀ d, Spec.specDecodeMsg b = some d →
+          OptClauses cfg.payload (specScanWith (catKind cfg) cfg.payload req).edns d := by
+  obtain ⟨t, mw, r', h1, h2, h3⟩ := ServerContent.signed_answer_final cfg hcfg tr now bufLen req hbuf hpay hp16 hreq hr hv
+  refine ⟨t, mw, r', h1, h2, fun r'' S hT hev b hb d hd => ?_⟩
+  obtain ⟨nowT, alg, key, kn, F, mac, bd, _, _, _, _, _, hf, hG, _, hty, _, he⟩ := h3 r'' S hT hev b hb
+  exact (C09_optClauses_of_good cfg.payload hp16 _ F bd hG hty he b mac hf d hd).1
 
 /-! ### the decision at an OPT record (spec level) -/
 
